@@ -1685,7 +1685,15 @@ class Interp:
                 self.ev(k.value, st)
             else:
                 kwargs[k.arg] = self.ev(k.value, st)
-        return self.call_val(f, args, kwargs, st, n)
+        n0 = len(self.events)
+        out = self.call_val(f, args, kwargs, st, n)
+        # an axis-less reduction of a batch-carrying array collapses the batch into one value: harmless in a control test,
+        # wrong if it reaches a result -> pseudo-dependence ('collapsed', site) that travels with the value
+        for e in self.events[n0:]:
+            if e.type == "reduce" and e.node is n and e.target is not None and "batch" in e.target.tags and e.f.get("axis") is None \
+                    and e.fn not in ("norm",):
+                out = out.copy(deps=out.deps | {("collapsed", f"{e.fn}@{getattr(n, 'lineno', 0)}")})
+        return out
 
     def call_val(self, f: Val, args, kwargs, st, node) -> Val:
         if f.kind == "func" and f.fn is None:
